@@ -125,7 +125,7 @@ def describe(case, conc, kinds):
         elif not kd["meta"]:
             parts.append("no-metadata")
         else:
-            parts.append(conc["strings"][kd["vid"] - 1] + ("" if kd["url"] else "(no url)"))
+            parts.append(conc["strings"][kd["vid"] - 1] + ("" if kd["url"] else "(no url)") + ("(deprecated)" if kd.get("dep") else ""))
     return "[" + ", ".join(parts) + "]"
 
 
